@@ -98,7 +98,8 @@ def check_window(ctx, mon_state, rng, width, channels, data, uc):
         thr_c = model_db - 2.0 if rng.random() < 0.5 else model_db + 2.0
         want = model_db >= thr_c
         conts = {"bytearray": bytearray(data), "memoryview": memoryview(data), "array": array.array({1: "b", 2: "h", 4: "i"}[width], data),
-                 "numpy": np.frombuffer(data, dtype={1: np.int8, 2: np.int16, 4: np.int32}[width])}
+                 "numpy": np.frombuffer(data, dtype={1: np.int8, 2: np.int16, 4: np.int32}[width]),
+                 "numpy_uint8_view": np.frombuffer(data, dtype=np.uint8)}  # raw bytes held as a byte array: still PCM of the stated width
         conts["memoryview_of_array"] = memoryview(conts["array"])
         for cname, obj in conts.items():
             ctx.count("container_variants_checked")
@@ -119,6 +120,20 @@ def check_window(ctx, mon_state, rng, width, channels, data, uc):
         elif seen_false:
             ctx.violation("not-monotone-in-threshold", {"case": case, "results": results})
             return
+    # thresholds given as NumPy scalars of lower precision mean exactly their own value
+    if impl_db is not None and impl_db > -199:
+        import numpy as np
+
+        for ty in (np.float32, np.float16, np.float64):
+            for cand in (impl_db, impl_db + 1e-4, impl_db - 1e-4):
+                thr_np = ty(cand)
+                if not np.isfinite(thr_np) or abs(float(thr_np) - model_db) <= 1e-9 and float(thr_np) != impl_db:
+                    continue
+                ctx.count("numpy_scalar_thresholds_checked")
+                r = verdict(AudioEnergyValidator(thr_np, width, channels, use_channel=uc), data)
+                if r != (impl_db >= float(thr_np)):
+                    ctx.violation("numpy-scalar-threshold-compared-in-lower-precision", {"case": case, "thr": float(thr_np), "thr_type": ty.__name__, "impl_db": impl_db, "got": r})
+                    return
     # boundary against the implementation's own energy
     if impl_db is not None and impl_db > -199:
         for thr, exp, name in ((impl_db, True, "at"), (math.nextafter(impl_db, math.inf), False, "just-above"),
@@ -156,6 +171,28 @@ def exact_cases(ctx):
                     ctx.violation("digital-silence-at-floor-threshold-judged-inactive", {"case": dict(case, uc=uc)})
                 if verdict(AudioEnergyValidator(-199.999, width, channels, use_channel=uc), z):
                     ctx.violation("digital-silence-above-floor-judged-active", {"case": dict(case, uc=uc)})
+
+
+def huge_window_cases(ctx):
+    """one analysis window of more than 2**20 samples per channel, energy unevenly spread."""
+    import random as _r
+
+    rng = _r.Random(5)
+    for width, channels in ((2, 1), (1, 2)):
+        n = 2 ** 20 + rng.randint(1000, 300000)
+        head = n * 2 // 3
+        lim = A.LIM[width]
+        quiet = A.pack([0] * channels, width)
+        loud = A.pack([lim // 2 if c == 0 else 0 for c in range(channels)], width) + A.pack([-(lim // 2) if c == 0 else 0 for c in range(channels)], width)
+        data = quiet * head + loud * ((n - head) // 2) + quiet * ((n - head) % 2)
+        model_db = E.window_db(data, width, channels, None)
+        ctx.case(("huge-window", width, channels, n), True)
+        ctx.count("huge_windows_checked")
+        for thr in (model_db - 0.5, model_db + 0.5):
+            r = verdict(AudioEnergyValidator(thr, width, channels), data)
+            if r != (model_db >= thr):
+                ctx.violation("window-above-threshold-judged-inactive" if model_db >= thr else "window-below-threshold-judged-active",
+                              {"case": {"width": width, "channels": channels, "nsamples": n, "huge_window": True}, "thr": thr, "model_db": model_db})
 
 
 def constructor_cases(ctx):
@@ -251,6 +288,8 @@ def run_shard(ctx):
     if ctx.shard == 0:
         exact_cases(ctx)
         constructor_cases(ctx)
+    if ctx.shard == 1:
+        huge_window_cases(ctx)
     rng = ctx.rng("windows")
     state = {"last": None}
 
@@ -300,7 +339,7 @@ def inconclusive(merged, tier):
     c = merged["counters"]
     out = [f"monitor never observed {k}" for k in
            ("decisions_checked", "exact_boundary_cases", "silence_floor_cases", "constructor_cases",
-            "single_channel_selector_ignored_cases", "in_situ_verdicts", "in_situ_cases_threshold_zero", "in_situ_reader_inputs", "container_variants_checked", "hook_is_valid_calls", "repo_tests_validator_verdicts_checked") if c.get(k, 0) == 0]
+            "single_channel_selector_ignored_cases", "in_situ_verdicts", "in_situ_cases_threshold_zero", "in_situ_reader_inputs", "huge_windows_checked", "numpy_scalar_thresholds_checked", "container_variants_checked", "hook_is_valid_calls", "repo_tests_validator_verdicts_checked") if c.get(k, 0) == 0]
     if c.get("monitor_errors", 0):
         out.append("the passive monitor itself raised (see notes)")
     if c.get("energy_values_observed", 0) == 0:
